@@ -23,7 +23,8 @@ COMPONENTS = {
              'elfi.clients.dask.Client', 'compiler', 'loaders', 'Executor', 'pickle'],
     'stub': ['multiprocessing.Pool -> SimPool', 'ipyparallel client/view -> SimIpp',
              'dask.distributed.Client -> SimDask', 'uuid -> counter',
-             'numpy.Inf/NINF alias shim'],
+             'numpy.Inf/NINF alias shim',
+             'subprocess as seen by elfi.model.tools -> in-process echo'],
 }
 ASSUMPTIONS = [
     'simulated pools replace OS processes; task and result cross a real pickle round trip',
